@@ -105,6 +105,78 @@ def run(fx, R, tier):
     check_protocol(fx, R, fa, fr)
     check_conversions(fx, R)
     check_entry_values(fx, R, fr)
+    check_frame_completeness(fx, R, fa)
+
+
+def check_frame_completeness(fx, R, fa):
+    """E8: re-anchoring must FULLY replace the frame.  The frame is stored as a homogeneous transform; the parts of it that setAnchor() does not write (when it writes through translation() / linear()
+    only: the bottom row) keep whatever another method left there - so no other method may write the transform through its raw matrix, and a whole-object assignment must assign a transform."""
+    FRAME = 'enu2ecef_'
+
+    def frame_writes(f):
+        out = []          # (kind, node): 'parts' (translation/linear/rotation view), 'whole' (assignment of a transform), 'raw' (through matrix()/data())
+        for y in walk(f.get('body')):
+            if not isinstance(y, dict):
+                continue
+            tgt = None
+            if (y.get('k') == 'Bin' and y.get('op') in ('=', '+=', '-=', '*=', '/=')) or (y.get('k') == 'Op' and y.get('op') in ('=', '<<', '+=', '-=', '*=') and len(y.get('args', [])) == 2):
+                tgt = y['l'] if y.get('k') == 'Bin' else y['args'][0]
+            elif y.get('k') == 'MCall' and y.get('m') in ('setZero', 'setConstant', 'setIdentity', 'fill', 'setOnes', 'setRandom', 'swap', 'makeAffine') and not y.get('inrepo'):
+                tgt = y.get('obj')
+            if tgt is None:
+                continue
+            chain, n0 = [], strip_casts(tgt)
+            for _ in range(8):
+                if n0 is None:
+                    break
+                if n0.get('k') == 'MCall':
+                    chain.append(n0.get('m'))
+                    n0 = strip_casts(n0.get('obj'))
+                elif n0.get('k') == 'Op' and n0.get('args'):
+                    chain.append(n0.get('op'))
+                    n0 = strip_casts(n0['args'][0])
+                else:
+                    break
+            if n0 is None or n0.get('k') != 'Member' or n0.get('name') != FRAME:
+                continue
+            first = chain[-1] if chain else None
+            if first is None:
+                kind = 'identity' if (y.get('k') == 'MCall' and y.get('m') == 'setIdentity') else 'whole' if y.get('k') != 'MCall' else 'raw'
+            elif first in ('translation', 'linear', 'rotation', 'linearExt', 'affine'):
+                kind = 'parts'
+            elif first in ('matrix', 'data'):
+                kind = 'raw'
+            else:
+                kind = 'other'
+            out.append((kind, y))
+        return out
+    wa = frame_writes(fa)
+    if not wa:
+        R.undecided('E8', 'ENUConverter::setAnchor:frame-completeness', 'no write of %s found in setAnchor()' % FRAME)
+        return
+    if any(k_ in ('whole', 'identity') for k_, _n in wa):
+        R.holds('E8', 'ENUConverter::setAnchor:frame-completeness', 'setAnchor() assigns the whole transform', fx.rel(fa['loc']), 'E-STATE')
+        return
+    if any(k_ in ('raw', 'other') for k_, _n in wa):
+        R.undecided('E8', 'ENUConverter::setAnchor:frame-completeness', 'setAnchor() writes the transform through %s' % sorted({pp(n_)[:60] for k_, n_ in wa if k_ in ('raw', 'other')})[:2])
+        return
+    n_other = 0
+    for g in fx.functions.values():
+        if g.get('cls') != fa.get('cls') or g.get('body') is None or g is fa or g.get('ctor'):
+            continue
+        for (k_, node) in frame_writes(g):
+            n_other += 1
+            if k_ == 'raw':
+                R.violated('E8', 'ENUConverter::%s:frame-raw-write' % g['name'], '%s() writes the frame through its raw matrix (`%s`), which includes the bottom row of the homogeneous transform; setAnchor() writes only '
+                           'translation() and linear(), so after %s() every later anchor keeps that bottom row: the frame handed out by getEnuToEcefTransform() after re-anchoring is not the rotation-plus-translation '
+                           'of a fresh converter on the same anchor (as a 4x4 matrix its determinant is 0 and its inverse NaN) - the old state is not fully replaced' % (g['name'], pp(node)[:80], g['name']),
+                           fx.rel(node.get('loc') or g['loc']), 'E-STATE')
+            elif k_ == 'other':
+                R.undecided('E8', 'ENUConverter::%s:frame-write' % g['name'], 'writes the frame through `%s`' % pp(node)[:80])
+            else:
+                R.holds('E8', 'ENUConverter::%s:frame-write@%s' % (g['name'], fx.rel(node.get('loc') or g['loc']).split(':', 1)[-1]), 'assigns a whole transform / a part setAnchor() rewrites', fx.rel(node.get('loc') or g['loc']), 'E-STATE')
+    if not n_other:
+        R.holds('E8', 'ENUConverter:frame-completeness', 'only setAnchor() and the constructors write the frame', fx.rel(fa['loc']), 'E-STATE')
 
 
 def check_entry_values(fx, R, fr):
